@@ -147,3 +147,21 @@ package module
 //@   trusted
 //@   pure
 //@   ensures seq(r) == addr_id(a)
+
+// C02: sending a consensus message through the protocol handler (no effect on verified state;
+// what may be sent is constrained by call-site rules in the consensus contracts)
+//@ property C02
+// a wallet has a real (non-nil) address value
+//@ func (w Wallet) Address() (a)
+//@   iface
+//@   trusted
+//@   pure
+//@   ensures a != nil && ivalue(a) != 0
+//@ func (ph ProtocolHandler) Broadcast(pi, b, bt) (err)
+//@   iface
+//@   trusted
+//@   pure
+//@ func (ph ProtocolHandler) Multicast(pi, b, role) (err)
+//@   iface
+//@   trusted
+//@   pure
